@@ -8,7 +8,7 @@ MANIFEST = dict(
    note="PARTIAL. The Go memory model, the sync primitives and the scheduler are not modelled (locks in the deadlock model are exclusive and non-re-entrant); the translator is a syntactic approximation (locks held = Lock/RLock seen earlier in the same function and not yet released; calls and fields resolved by name; mutation through methods of package-level values of foreign types only listed). 'Every result equals the run-alone result' is proved for the registry/configuration model and otherwise checked by the runs: -race scenarios (hand-written, one per shared location with callable accessors, one per conflict of the regenerated table, first-use scenarios over fresh struct types / JSON-Schema documents / 249 generated constructor calls compared with a cold run-alone process) and recorded histories, which observe only the schedules that happen. Trusted: Lean kernel, axioms propext/Classical.choice/Quot.sound, go/ast translator, Go race detector, porcupine (support).",
    design="DESIGN.md §5 C14", category="proof")
 
-MODULES = ["Gozod.Proofs.C14", "Gozod.Proofs.C14Order", "Gozod.Proofs.C14Lin"]
+MODULES = ["Gozod.Proofs.C14", "Gozod.Proofs.C14Order", "Gozod.Proofs.C14Lin", "Gozod.Proofs.C14RW"]
 THEOREMS = [
     "Gozod.C14.c14_racefree", "Gozod.C14.c14_racefree_table", "Gozod.C14.c14_schema_ops_read_only", "Gozod.C14.conflicts_complete",
     "Gozod.C14.locales_unsynchronised", "Gozod.C14.locales_synchronised", "Gozod.C14.lazy_cache_unsynchronised",
@@ -21,6 +21,9 @@ THEOREMS = [
     "Gozod.C14.search_sound", "Gozod.C14.search_complete", "Gozod.C14.linearizable_iff", "Gozod.C14.atomic_linearizable",
     "Gozod.C14.reads_run_alone", "Gozod.C14.run_alone_key", "Gozod.C14.store_fresh_is_atomic", "Gozod.C14.setconfig_lost_update",
     "Gozod.C14.cas_success_is_atomic", "Gozod.C14.cas_failure_no_effect",
+    # sync.RWMutex against the atomic-step model and the exclusive-lock model (Proofs/C14RW.lean)
+    "Gozod.C14.rw_reads_stable", "Gozod.C14.rw_section_result", "Gozod.C14.rw_run_atomic",
+    "Gozod.C14.enabled_forget", "Gozod.C14.stepR_forget", "Gozod.C14.no_deadlock_rw",
 ]
 GEN = os.path.join(C.LEAN, "Gozod", "Gen", "LockSets.lean")
 GEN_ORDER = os.path.join(C.LEAN, "Gozod", "Gen", "LockOrder.lean")
@@ -35,15 +38,29 @@ def key(op, impl, M, S):
     return "race:" + C.op_body(op).split(" ")[2] if impl.startswith("RACE") else impl.split(" ")[0] + ":" + C.op_body(op).split(" ")[2]
 
 
+def build_translator():
+    """harness/cmd/c14x is a module of its own (golang.org/x/tools/go/packages v0.50.0 from the module cache: the
+    library is loaded with go/types); it does not import the library, so there is nothing to re-point."""
+    with C.Lock("go"):
+        C.trim_gocache()
+        binp = C.harness_bin("C14X")
+        os.makedirs(os.path.dirname(binp), exist_ok=True)
+        if os.path.exists(binp): os.unlink(binp)
+        rc, out = C.run(["go", "build", "-o", binp, "."], cwd=os.path.join(C.HARNESS, "cmd", "c14x"), env=C.goenv(), timeout=1800)
+    return rc == 0, out
+
+
 def regenerate(res):
-    ok, out = C.build_harness("C14X")
+    ok, out = build_translator()
     if not ok:
         return "translator does not build:\n" + out[-2000:]
     d = os.path.join(C.BUILD, "run", "c14x-%d" % os.getpid())
     shutil.rmtree(d, ignore_errors=True); os.makedirs(d)
-    rc, out = C.run([C.harness_bin("C14X"), "-repo", C.REPO, "-out", d], timeout=300)
+    rc, out = C.run([C.harness_bin("C14X"), "-repo", C.REPO, "-out", d], env=C.goenv(), timeout=300)
+    if rc == 4:
+        return "translator refuses to write the tables: " + out[-2000:]
     if rc != 0:
-        return "translator failed: " + out[-2000:]
+        return "translator failed (go/packages could not load / type-check the library?): " + out[-2000:]
     new = open(os.path.join(d, "LockSets.lean")).read()
     new_order = open(os.path.join(d, "LockOrder.lean")).read()
     res._accessors_src = open(os.path.join(d, "accessors_gen.go")).read()
@@ -251,7 +268,7 @@ def run(res):
     res.assumptions += [
         "Go memory model, sync.Mutex/RWMutex/Once and sync/atomic behave as documented (not modelled)",
         "the race detector only sees the schedules that occur in the run",
-        "lock-sets and lock order are extracted syntactically (go/ast, names not types) from every non-test file of the library outside examples/, docs/, testdata/, cmd/",
+        "lock-sets and lock order are extracted from every non-test file of the library outside examples/, docs/, testdata/, cmd/ by a go/ast walk over trees type-checked with go/types (callees, selected fields, sync kinds and package-level variables resolved by object, interface calls by the implementing types); locks held at a point = Lock/RLock earlier in the same function and not yet released (flow-insensitive)",
         "recorded histories: invocation/response order taken from one global atomic counter; only the schedules that occur are observed",
     ]
     return res.finish()
